@@ -209,6 +209,10 @@ var trieBoundary = []string{"a", "\x00", "\x7f", "\u0080", "\u07ff", "\u0800", "
 // bytes from which truncated / overlong / stray-continuation sequences arise (rune-aligned reading)
 var trieRaw = []string{"a", "\xe4", "\xb8", "\xad", "\x80", "\xc3", "\xa9", "\xf0", "\x9f", "\xff", "\xef\xbf\xbd", "中", "é"}
 
+// lead bytes that Go's decoder rejects together with continuation bytes: overlong 2-byte (C0, C1), overlong 3-/4-byte
+// (E0 80.., F0 80..), surrogates (ED A0..), beyond U+10FFFF (F4 90.., F5..): each byte must be a symbol of its own
+var trieOverlong = []string{"a", "\x00", "\xc0", "\xc1", "\xa1", "\x80", "\xe0", "\x9f", "\xed", "\xa0", "\xf0", "\x8f", "\xf4", "\x90", "\xf5", "\xbf"}
+
 func randWord(r *rand.Rand, units []string, minU, maxU int) string {
 	n := minU + r.Intn(maxU-minU+1)
 	var sb strings.Builder
